@@ -114,6 +114,15 @@ async fn episode(p: &EpParams) -> EpReport {
                 seq.create_sub(&sub_name(1, i), &main_topic, 10).await;
             }
         }
+        // now and then a create that is refused (subscription in the listed project, topic in another):
+        // it must not show up in any listing
+        if kind != "topics" && rng.chance(1, 12) {
+            let ghost = sub_name(1, 700_000 + i);
+            if seq.cx.create_sub(&ghost, &topic_name(2, 0), 10).await.is_ok() {
+                rep.viol("C17", "C17:accepted:foreign-project-topic", "a subscription on a topic of another project was accepted");
+            }
+            rep.inc("refused_creates_before_the_walk");
+        }
         created += 1;
         // deletions and re-creations before the walk (order after deletion)
         if count <= 25 && created > 1 && rng.chance(1, 5) {
